@@ -1135,6 +1135,35 @@ def translate_operator_overrides(classes, memo):
     return "\n".join(out)
 
 
+def helper_guards(repo):
+    """every function / method of operators/*.py (other than the public entry points of the guard table) that calls
+    _matmul_broadcast_shape on its own: `file::Class.method` / `file::function`.  These are the shape checks of the
+    `_matmul` / `_t_matmul` closures that the generic solvers (LinearOperator._solve -> linear_cg(self._matmul, rhs)) reach
+    WITHOUT passing the public matmul guard."""
+    d = os.path.join(repo, "linear_operator/operators")
+    out = []
+    for f in sorted(os.listdir(d)):
+        if not f.endswith(".py"):
+            continue
+        tree = ast.parse(open(os.path.join(d, f)).read())
+
+        def calls_guard(fn):
+            for n in ast.walk(fn):
+                if isinstance(n, ast.Call):
+                    nm = dotted_name(n.func)
+                    if nm is not None and nm.split(".")[-1] == "_matmul_broadcast_shape":
+                        return True
+            return False
+        for n in tree.body:
+            if isinstance(n, ast.FunctionDef) and calls_guard(n):
+                out.append("%s::%s" % (f, n.name))
+            if isinstance(n, ast.ClassDef):
+                for m in n.body:
+                    if isinstance(m, ast.FunctionDef) and m.name not in ENTRY_METHOD and calls_guard(m):
+                        out.append("%s::%s.%s" % (f, n.name, m.name))
+    return out
+
+
 FAST_ENTRIES = ("matmul", "rmatmul", "__add__", "__sub__", "mul", "add_diagonal")
 
 
@@ -1206,12 +1235,16 @@ def translate(repo):
     out.append("   what is returned, operand classes tested positively around the return, guards passed before it *)")
     out.append("Definition fastpaths : list fastpath := [\n%s\n]." % ";\n".join(fl))
     out.append("")
+    hg = helper_guards(repo)
+    out.append("(* helpers and private methods (not the public entry points) that call _matmul_broadcast_shape themselves *)")
+    out.append("Definition helper_guards : list string := [\n%s\n]." % ";\n".join("  " + coq_str(x) for x in hg))
+    out.append("")
     mro_lines = ["  (%s, [%s])" % (coq_str(c), "; ".join(coq_str(x) for x in c3(classes, c, memo) if x in classes))
                  for c in sorted(classes) if is_lo_class(classes, c, memo)]
     out.append("(* method resolution order (C3 on the AST) of every operator class *)")
     out.append("Definition mro_table : list (string * list string) := [\n%s\n]." % ";\n".join(mro_lines))
     out.append("")
-    meta = {"classes": sorted({r[0] for r in rows}), "fastpaths": [list(x) for x in fps],
+    meta = {"classes": sorted({r[0] for r in rows}), "fastpaths": [list(x) for x in fps], "helper_guards": hg,
             "rows": [{"cls": c, "entry": e, "def": d, "exits": [[g, list(k), c] for g, k, c in ex]} for c, e, d, ex in rows],
             "ctors": [list(x) for x in ctors]}
     return "\n".join(out) + "\n", meta
